@@ -7,7 +7,9 @@
               four real parsers answered (parse result or rejection, dumped content and dump text)
    v_model : nms is Model.C07Decl.mnorm ms, and the compilers of Model/C07Decl.v give exactly the observed tables /
              Model/C07Parse.v run on the model tables gives exactly the observed answers, for all four styles;
-   v_class : Model.C07Parse.finding_class_m — the same function the theorems are guarded with;
+   v_class : Model.C07Parse.finding_class_m (run cases) / table_class (table cases: finding_class_m without input,
+             and 0 for a nested declaration without declaration-time defaults) — the same functions the theorems
+             are guarded with;
    v_spec  : Spec/C07Spec.v, on the observations only. *)
 From JV Require Import Lib.Base Model.C07Decl Model.C07Parse Spec.C07Spec.
 
@@ -50,7 +52,7 @@ Definition judge1_raw (fixkey : bool) (c : case) : verdict :=
   match c with
   | CTable gk ms nms full obs =>
       {| v_model := norm_agrees ms nms && four_all2 (option_eqb table_eqb) (model_tables fixkey gk ms full) obs;
-         v_class := finding_class_m (fun s => VStr s) gk ms no_input;
+         v_class := table_class gk ms;   (* the guard of C07_grouped_tables_equal_m / C07_nested_tables_agree *)
          v_spec := tables_agree_opt obs |}
   | CRun gk ms nms full inp pvt jlt obs =>
       let pv := tab_fun pvt in
